@@ -92,7 +92,8 @@ class MinGenSet():
         self.total = total
         utils.logger.debug(f"{__name__}: Generating set sum = {self.total}")
         self.weight_type = weight_type
-        self.max_multiplicity = max_multiplicity
+        # (as a Python number as well: `max_multiplicity + 1` bits are counted below, np.uint8(255) + 1 is 0)
+        self.max_multiplicity = max_multiplicity.item() if hasattr(max_multiplicity, "item") else max_multiplicity
         if self.max_multiplicity < 1:
             utils.logger.error(f"{__name__}: `max_multiplicity` must be at least 1.")
             raise ValueError("`max_multiplicity` must be at least 1.")
